@@ -52,7 +52,6 @@ def setup(numba_threads=None):
     os.environ[GUARD] = "1"
     if numba_threads is not None:
         os.environ["NUMBA_NUM_THREADS"] = str(numba_threads)
-    os.environ.setdefault("NUMBA_NUM_THREADS", "16")
     # make sure the tree under test is the one imported
     if REPO not in sys.path:
         sys.path.insert(0, REPO)
